@@ -61,7 +61,14 @@ CLASSES = {
     "threads": dict(quick=3000, thorough=20000, timeout=60),
 }
 
-TZ_SETTINGS = [None, "UTC", "EST5EDT", "CET-1CEST", "NZST-12NZDT",
+# Every daylight-saving setting carries explicit rules: for a TZ string
+# without them glibc borrows the rules of its "posixrules" file, and under
+# that fallback localtime() is not a function of (TZ, instant) -- after a
+# mktime() call the same instant is reported with the other offset (checked
+# with the time module alone, no dateutil involved). Such settings would make
+# any history-independence oracle report libc, not dateutil.
+TZ_SETTINGS = [None, "UTC", "EST5EDT,M3.2.0,M11.1.0",
+               "CET-1CEST,M3.5.0,M10.5.0/3", "NZST-12NZDT,M9.5.0,M4.1.0/3",
                "XYZ-5:30", "AAA11"]
 # simulated instants: year ends / century ends +-1 s, leap day, mid-year
 CLOCKS = [946684799.0, 946684800.0, 946684801.0, 2524607999.0, 2524608000.0,
